@@ -436,7 +436,122 @@ def r16_6(ctx, prog, crate):
         ctx.check(want in found, "R16.6/ANCHOR", [want], "`%s` is not in the analysed closure" % want, None)
 
 
+def r16_7(ctx, prog, crate):
+    """Numeric runtime arguments compare by value: the Name arm of cmp_bench_arg_names, path by path (lib/patheval.py).
+    Every way of arriving at an ordering is checked against the staging the value order needs - integers first (both
+    unsigned: compare as u128; one unsigned and the other a (negative) i128: fixed answer; both negative: compare as i128),
+    floats only when NO integer row applies, natural order only when neither applies - and each later stage may only be
+    reached on paths whose decisions rule out every earlier row (so two integers are never compared as f64)."""
+    from lib.patheval import PathEval
+    from lib.symexpr import show
+    b = prog.body("config::SortingAttr::cmp_bench_arg_names", crate)
+    names = tables.variant_names(prog, "config::SortingAttr", crate)
+    if not ctx.anchor("R16.7", "SortingAttr::cmp_bench_arg_names + ADT", (1 if b else 0) + (1 if names else 0), 2):
+        return
+    ctx.saw(b)
+    sws = [x for x in tables.discr_switches(b) if b.local_ty(x[2]).endswith("config::SortingAttr")]
+    if not ctx.check(len(sws) == 1, "R16.7", ["cmp_bench_arg_names", "match-on-attr"], "matches on the attribute: %d" % len(sws), b.where(0)):
+        return
+    bi, t, _ = sws[0]
+    arms, otherwise = tables.arm_targets(t)
+    name_t = arms.get(names.index("Name"), otherwise)
+    kind_t = arms.get(names.index("Kind"), otherwise)
+    # the `ordering` variable: what the Kind arm sets to Equal; the join = where it is first read
+    ordl = None
+    for s in b.blocks[kind_t]["stmts"]:
+        if s["k"] == "assign" and s["rv"]["k"] == "agg" and s["rv"].get("variant") == "Equal" and not s["p"]["proj"]:
+            ordl = s["p"]["l"]
+    if not ctx.check(ordl is not None, "R16.7", ["cmp_bench_arg_names", "ordering-variable"], "cannot find the per-attribute ordering variable", b.where(kind_t)):
+        return
+    readers = set()
+    for y, si, s in b.stmts():
+        if s["k"] == "assign":
+            rv = s["rv"]
+            pl = rv.get("p") if rv["k"] in ("ref", "discr") else (rv.get("o", {}).get("p") if rv["k"] == "use" else None)
+            if pl is not None and pl["l"] == ordl:
+                readers.add(y)
+    sums = PathEval(b, max_paths=5000).run(start=name_t, stop_at=readers)
+    if not ctx.check(sums is not None and sums, "R16.7", ["cmp_bench_arg_names", "summarisable"], "the Name arm has a loop or too many paths", b.where(name_t)):
+        return
+
+    def who(e):
+        for k_, nm in ((2, "a"), (3, "b")):
+            if e in (("sptr", (k_, ())), ("ptr", (k_, ())), ("arg", k_, ())):
+                return nm
+        return None
+
+    def parse_site(e):
+        """(type, 'a'|'b', bb) of a `x.parse::<T>()` site expression"""
+        if e[0] == "site" and e[1].endswith("str::parse") and len(e) > 3 and e[3]:
+            c = b.call_at(e[2])
+            ty = (c.gargs or ["?"])[0] if c is not None else "?"
+            x = e[3][0]
+            # `a` is `&&str`: one more deref may show as a cell / field-less projection
+            w = who(x)
+            if w is None and x[0] in ("arg",) and x[2] == ():
+                w = {2: "a", 3: "b"}.get(x[1])
+            return ty, w, e[2]
+        return None
+    bad = []
+    stages = set()
+    for sm in sums:
+        fact = {}
+        for a, pol in sm.conds:
+            if a[0] == "discr":
+                ps = parse_site(a[1])
+                if ps and ps[1]:
+                    fact[(ps[0], ps[1])] = (a[2] == 0) if pol else None
+            elif a[0] == "bool" and a[1][0] == "site" and a[1][1].endswith(("Result::is_ok", "Result::is_err")) and a[1][3]:
+                x = a[1][3][0]
+                ps = None
+                if x[0] == "site":
+                    ps = parse_site(x)
+                elif x[0] in ("sptr", "ptr") and isinstance(x[1][0], tuple) and x[1][0][0] == "ret":
+                    c = b.call_at(x[1][0][2])
+                    if c is not None and c.callee.endswith("str::parse"):
+                        # recover the argument from the recorded calls of this path
+                        for callee, args, bb in sm.calls:
+                            if bb == c.bb:
+                                ps = ((c.gargs or ["?"])[0], who(args[0]), bb)
+                if ps and ps[1]:
+                    v = pol if a[1][1].endswith("is_ok") else (not pol)
+                    fact[(ps[0], ps[1])] = v
+        ua, ub, ia, ib, fa, fb = (fact.get(k_) for k_ in (("u128", "a"), ("u128", "b"), ("i128", "a"), ("i128", "b"), ("f64", "a"), ("f64", "b")))
+        r = sm.env.get(ordl, ("undef", ordl))
+        kind = None
+        if r[0] == "site" and r[1].rsplit("::", 1)[-1] == "cmp" and len(r[3]) == 2:
+            ops = [parse_site(o[3]) if (o[0] == "payload" and o[1] == "Ok") else None for o in r[3]]
+            if len(ops) == 2 and all(ops) and ops[0][0] == ops[1][0] and (ops[0][1], ops[1][1]) == ("a", "b"):
+                kind = "cmp-" + ops[0][0]
+            else:
+                kind = "cmp-?"
+        elif r[0] == "adt" and r[1].endswith("cmp::Ordering"):
+            kind = r[2]
+        elif r[0] == "payload" and r[1] == "Some" and r[3][0] == "site" and r[3][1].rsplit("::", 1)[-1] == "partial_cmp":
+            kind = "float"
+        elif r[0] == "site" and r[1].endswith("natural_cmp"):
+            kind = "natural"
+        stages.add(kind)
+        int_row_excluded = (ua is not None and ub is not None) and not (ua and ub) and \
+            (not (ua and not ub) or ib is False) and (not (not ua and ub) or ia is False) and (not (not ua and not ub) or ia is False or ib is False)
+        ok = {
+            "cmp-u128": ua is True and ub is True,
+            "Greater": ua is True and ub is False and ib is True,
+            "Less": ua is False and ub is True and ia is True,
+            "cmp-i128": ua is False and ub is False and ia is True and ib is True,
+            "float": int_row_excluded and fa is True and fb is True,
+            "natural": int_row_excluded,
+        }.get(kind, False)
+        if not ok:
+            bad.append("%s when %s" % (kind or show(r), {"%s(%s)" % k_: v for k_, v in sorted(fact.items())}))
+    ctx.check(not bad, "R16.7", ["cmp_bench_arg_names", "numeric-staging"],
+              "paths of the Name arm that do not follow the value order's staging: %s" % bad[:4], b.where(name_t), detail=bad[:8])
+    ctx.check({"cmp-u128", "cmp-i128", "Greater", "Less", "float", "natural"} <= stages, "R16.7", ["cmp_bench_arg_names", "all-stages-present"],
+              "stages reached: %s" % sorted(str(s) for s in stages), b.where(name_t), detail=sorted(str(s) for s in stages))
+
+
 def run(ctx, prog, crate):
+    r16_7(ctx, prog, crate)
     r16_6(ctx, prog, crate)
     r16_1(ctx, prog, crate)
     r16_2(ctx, prog, crate)
